@@ -819,6 +819,9 @@ def load_subscript(it, obj, k):
         if obj.name == "loc" and isinstance(k, Vec) and k.exact and d.labels is not None and all(isinstance(i, int) and not isinstance(i, bool) for i in k.v) \
                 and not (len(k.v) == d.n and k.v and all(isinstance(i, bool) for i in k.v)):
             k = list(k.v)                                   # an array of row labels
+        if obj.name == "iloc" and isinstance(k, Vec) and k.exact and d.exact and not k.v and d.n:
+            k = Vec([False] * d.n)                          # no position at all: no row (an empty array of positions is not an empty mask)
+            k.exact = True
         if obj.name == "iloc" and isinstance(k, Vec) and k.exact and d.exact and k.v and all(isinstance(i, int) and not isinstance(i, bool) for i in k.v):
             if any(not -d.n <= i < d.n for i in k.v):
                 raise Raised("IndexError", "positional indexers are out-of-bounds")
@@ -2642,6 +2645,8 @@ def ext_call(it, dotted, args, kw):
         if kind == "attrgetter" and len(args) >= 1 and all(isinstance(a_, str) and "." not in a_ for a_ in args):
             names = list(args)
             return (lambda x: it.attribute(x, names[0])) if len(names) == 1 else (lambda x: tuple(it.attribute(x, n_) for n_ in names))
+    if name == "itertools.starmap" and len(args) == 2 and not kw:
+        return [it.call(args[0], list(it.iterate(tup)), {}) for tup in it.iterate(args[1])]          # f(*t) for every tuple, in order
     if name == "itertools.compress" and len(args) == 2 and not kw:
         data, sel = it.iterate(args[0]), it.iterate(args[1])
         return _ai().GenList(d for d, s_ in zip(data, sel) if ai.truth(s_))
